@@ -5,8 +5,8 @@ ROOT='/verif'
 EXTRA={'C02-b':['C02','C15'],'C15-b':['C15','C02'],'C03-b':['C03','C02'],'C05-b':['C05','C02'],'C08-a':['C08','C02'],'C08-b':['C08','C02'],'C11-a':['C11','C18'],
        'C13-b':['C13'],'C12-b':['C12'],'C06-a':['C06'],'C06-b':['C06'],'C20-b':['C20'],'C10-a':['C10'],'C10-b':['C10'],'C18-b':['C18','C16'],
        'C02-c':['C02','C15'],'C02-d':['C02','C15'],'C15-c':['C15','C02'],'C15-d':['C15','C02'],'C06-c':['C06','C12'],'C12-c':['C12','C05'],'C13-c':['C13','C04'],
-       'C03-d':['C03','C15'],'C08-c':['C08','C02'],'C08-d':['C08','C02','C15'],'C10-c':['C10'],'C18-d':['C18'],'C14-c':['C14']}
-ids=sys.argv[1:] or sorted(d for d in os.listdir(ROOT+'/seeded') if os.path.exists(ROOT+'/seeded/'+d+'/patch.diff'))
+       'C03-d':['C03','C15'],'C08-c':['C08','C02'],'C08-d':['C08','C02','C15'],'C10-c':['C10'],'C18-d':['C18'],'C14-c':['C14'],'C02-h':['C02','C17']}
+ids=sys.argv[1:] or sorted(d for d in os.listdir(ROOT+'/seeded') if os.path.exists(ROOT+'/seeded/'+d+'/patch.diff') and 'neutralised_by' not in json.load(open(ROOT+'/seeded/'+d+'/meta.json')))
 out={}
 for mid in ids:
     props=EXTRA.get(mid,[mid.split('-')[0]])
